@@ -202,6 +202,14 @@ def _inline_one(facts, f, stmt, want=None, single_use=True):
     _subst_refs(body, mapping, to_var)
     if is_return:
         return {'k': 'block', 's': decls + [body], 'inlined_from': h['q'], 'loc': stmt.get('loc'), 'sid': stmt.get('sid')}
+    if pre and body.get('k') == 'block' and body.get('s') and body['s'][-1].get('k') == 'return' and body['s'][-1].get('e') is not None and \
+            sum(1 for x in walk_stmts(body) if x['k'] == 'return') == 1:
+        # `T x = h(..)` where h ends in its only return: the statements of h, then `T x = <returned expression>` - x keeps a single definition
+        v2 = dict(stmt['vars'][0])
+        v2['init'] = body['s'][-1]['e']
+        inner = {'k': 'block', 's': decls + body['s'][:-1], 'inlined_from': h['q'], 'loc': stmt.get('loc')}
+        return {'k': 'block', 's': [inner, {'k': 'decl', 'vars': [v2], 'loc': stmt.get('loc'), 'sid': stmt.get('sid')}],
+                'loc': stmt.get('loc'), 'sid': None, 'flattened': True}
     _LEAVE[0] += 1
     lid = _LEAVE[0]
     body = _replace_returns(body, target, lid)
